@@ -1,4 +1,5 @@
 import Sparrow.Model.Collect
+import Sparrow.Model.Bake
 import Driver.Parse
 open Sparrow Driver
 
@@ -39,7 +40,7 @@ def cmdCollect : P String := do
   let c ← flt; let dt ← flt; let att ← flt
   let dist ← flts p
   let e ← flts (p * s)
-  let f := collectF (fun i => binCeil (dist.getD i 0) c dt)
+  let f := collectRollF s (fun i => binCeil (dist.getD i 0) c dt)
     (fun i => Float.exp (-att * dist.getD i 0))
     (fun i t => if t < s then e.getD (i * s + t) 0 else 0)
   let mut out := Array.mkEmpty (p * s)
@@ -55,10 +56,151 @@ def cmdShift (useRoll : Bool) : P String := do
   let r := if useRoll then roll n h.toList else shiftTrunc n h.toList
   return "ok " ++ fmtFloats r.toArray
 
+
+def vec3At (a : Array Float) (k : Nat) : Vec3 Float :=
+  ⟨a.getD (3 * k) 0, a.getD (3 * k + 1) 0, a.getD (3 * k + 2) 0⟩
+
+/-- gap between the smallest and the second smallest of `f 0 … f (n-1)` (∞ for n ≤ 1):
+    the margin of a nearest-sample decision, reported so that the harness can set aside
+    near-ties (GUARDED class). -/
+def argminMargin (n : Nat) (f : Nat → Float) : Float := Id.run do
+  let inf : Float := 1.0 / 0.0
+  let mut best := inf
+  let mut second := inf
+  for k in [0:n] do
+    let v := f k
+    if v < best then
+      second := best
+      best := v
+    else if v < second then
+      second := v
+  pure (second - best)
+
+structure Geo where
+  p : Nat
+  d : Nat
+  nIn : Nat
+  w : Nat
+  centers : Array Float
+  wall : Array Nat
+  tableIdx : Array Nat
+  inDirs : Array Float
+  outDirs : Array Float
+  table : Array Float
+  nT : Nat
+
+/-- `P D nIn W nT centers[3P] wall[P] tableIdx[W] inDirs[W*nIn*3] outDirs[W*D*3] table[nT*nIn*D]` -/
+def parseGeo : P Geo := do
+  let p ← nat; let d ← nat; let nIn ← nat; let w ← nat; let nT ← nat
+  let centers ← flts (3 * p)
+  let wall ← nats p
+  let tableIdx ← nats w
+  let inDirs ← flts (w * nIn * 3)
+  let outDirs ← flts (w * d * 3)
+  let table ← flts (nT * nIn * d)
+  pure { p, d, nIn, w, centers, wall, tableIdx, inDirs, outDirs, table, nT }
+
+def Geo.scene (g : Geo) (area : Array Float) (f : Array Float) (vis : Array Nat)
+    (hasTable : Bool) (att : Option Float) : BakeScene Float :=
+  { P := g.p, D := g.d, nIn := g.nIn
+    center := fun i => vec3At g.centers i
+    area := fun i => area.getD i 0
+    F := fun i j => f.getD (i * g.p + j) 0
+    vis := fun i j => vis.getD (i * g.p + j) 0 != 0
+    wall := fun i => g.wall.getD i 0
+    tableIdx := fun w => g.tableIdx.getD w 0
+    inDirs := fun w k => vec3At g.inDirs (w * g.nIn + k)
+    outDirs := fun w k => vec3At g.outDirs (w * g.d + k)
+    table := fun ti a b => g.table.getD ((ti * g.nIn + a) * g.d + b) 0
+    hasTable := hasTable
+    att := att }
+
+/-- `bake <geo> hasTable hasAtt att area[P] F[P*P] vis[P*P]`
+    → `ok fft[P*P*D] | outIdx[P*P] | marginIn[P*P] | marginOut[P*P]` -/
+def cmdBake : P String := do
+  let g ← parseGeo
+  let hasTable ← nat; let hasAtt ← nat; let att ← flt
+  let area ← flts g.p
+  let f ← flts (g.p * g.p)
+  let vis ← nats (g.p * g.p)
+  let sc := g.scene area f vis (hasTable != 0) (if hasAtt != 0 then some att else none)
+  let dOut := if hasTable != 0 then g.d else 1
+  let mut fft := Array.mkEmpty (g.p * g.p * dOut)
+  let mut oi := Array.mkEmpty (g.p * g.p)
+  let mut mi := Array.mkEmpty (g.p * g.p)
+  let mut mo := Array.mkEmpty (g.p * g.p)
+  for i in [0:g.p] do
+    for j in [0:g.p] do
+      for dd in [0:dOut] do
+        fft := fft.push (sc.fft i j dd)
+      oi := oi.push (sc.outIdx i j)
+      if sc.visSym i j && hasTable != 0 then
+        let u := Vec3.normalize (Vec3.sub (sc.center i) (sc.center j))
+        mi := mi.push (argminMargin g.nIn fun k => Vec3.sqDist (sc.inDirs (sc.wall j) k) u)
+        let v := Vec3.normalize (Vec3.sub (sc.center j) (sc.center i))
+        mo := mo.push (argminMargin g.d fun k => Vec3.sqDist (sc.outDirs (sc.wall i) k) v)
+      else
+        mi := mi.push (1.0 / 0.0)
+        mo := mo.push (1.0 / 0.0)
+  return "ok " ++ fmtFloats fft ++ " | " ++ fmtNats oi ++ " | " ++ fmtFloats mi ++ " | " ++ fmtFloats mo
+
+/-- `adddir <geo> src[3] energy0[P]` → `ok e0dir[P*D] | margin[P]` -/
+def cmdAddDir : P String := do
+  let g ← parseGeo
+  let src ← flts 3
+  let e0 ← flts g.p
+  let sc := g.scene #[] #[] #[] true none
+  let s := vec3At src 0
+  let mut out := Array.mkEmpty (g.p * g.d)
+  let mut mg := Array.mkEmpty g.p
+  for i in [0:g.p] do
+    for dd in [0:g.d] do
+      out := out.push (sc.addDirectional s (fun k => e0.getD k 0) i dd)
+    let u := Vec3.normalize (Vec3.sub s (sc.center i))
+    mg := mg.push (argminMargin g.nIn fun k => Vec3.sqDist (sc.inDirs (sc.wall i) k) u)
+  return "ok " ++ fmtFloats out ++ " | " ++ fmtFloats mg
+
+/-- `ridx <geo> r[3]` → `ok idx[P] | margin[P]` -/
+def cmdRidx : P String := do
+  let g ← parseGeo
+  let r ← flts 3
+  let sc := g.scene #[] #[] #[] true none
+  let rv := vec3At r 0
+  let mut out := Array.mkEmpty g.p
+  let mut mg := Array.mkEmpty g.p
+  for i in [0:g.p] do
+    out := out.push (sc.receiverIdx rv i)
+    let u := Vec3.normalize (Vec3.sub rv (sc.center i))
+    mg := mg.push (argminMargin g.d fun k => Vec3.sqDist (sc.outDirs (sc.wall i) k) u)
+  return "ok " ++ fmtNats out ++ " | " ++ fmtFloats mg
+
+/-- `patchwise P D S c dt att dist[P] g[P] ridx[P] etc[P*D*S]` → `ok out[P*S]` (one band) -/
+def cmdPatchwise : P String := do
+  let p ← nat; let d ← nat; let s ← nat
+  let c ← flt; let dt ← flt; let att ← flt
+  let dist ← flts p
+  let gw ← flts p
+  let ridx ← nats p
+  let e ← flts (p * d * s)
+  let f := patchwiseCodeF s
+    (fun j dd t => if dd < d ∧ t < s then e.getD ((j * d + dd) * s + t) 0 else 0)
+    (fun j => ridx.getD j 0) (fun j => gw.getD j 0)
+    (fun i => binCeil (dist.getD i 0) c dt)
+    (fun i => Float.exp (-att * dist.getD i 0))
+  let mut out := Array.mkEmpty (p * s)
+  for i in [0:p] do
+    for t in [0:s] do
+      out := out.push (f i t)
+  return "ok " ++ fmtFloats out
+
 def dispatch (cmd : String) : P String :=
   match cmd with
   | "exchange" => cmdExchange
   | "collect" => cmdCollect
+  | "bake" => cmdBake
+  | "adddir" => cmdAddDir
+  | "ridx" => cmdRidx
+  | "patchwise" => cmdPatchwise
   | "shift" => cmdShift false
   | "roll" => cmdShift true
   | "ping" => pure "ok pong"
